@@ -31,7 +31,13 @@ Identity(shape) ==
 \* count (row-major: flattening the reading gives the vector back), a 3-D tensor reads as itself
 ViewsOf(t) == IF ~WithViews THEN {} ELSE IF Len(t.shape) = 1 THEN {s \in Shapes3 : Count(s) = Count(t.shape)} ELSE {t.shape}
 
-Init == /\ \E s \in Shapes : T = Identity(s) /\ start = s
+\* Tensors WITHOUT elements (an empty vector, 3-D tensors whose rows are empty) as starting points: whatever non-empty
+\* shape is asked for has a different element count, so a vector <-> 3-D or 3-D <-> 3-D reshape is refused and invents
+\* nothing (and the lenient vector -> vector arm hands the empty vector back).  Flattening them and reshaping them to
+\* another EMPTY shape is left out of the model (the statement says nothing a zero-element tensor could violate there).
+EmptyShapes == {<<0>>, <<2, 2, 0>>, <<1, 3, 0>>}
+
+Init == /\ \E s \in Shapes \cup EmptyShapes : T = Identity(s) /\ start = s
         /\ hist = <<>>
 
 \* reshape(to): refused (panic, tensor consumed -> behaviour ends) unless ReshapeDefined.
@@ -47,7 +53,7 @@ DoReshape(to) ==
                                      shape |-> T.shape, flat |-> GetFlat(T), views |-> {}])
 
 DoFlatten ==
-  /\ Len(hist) < Depth
+  /\ Len(hist) < Depth /\ Count(T.shape) > 0
   /\ UNCHANGED start
   /\ T' = Flatten(T)
   /\ hist' = Append(hist, [op |-> "flatten", from |-> T.shape, to |-> <<>>, outcome |-> "ok",
